@@ -70,6 +70,20 @@ def _folded(expr):
     return ".to_uppercase()" in expr
 
 
+def _folded_in(src):
+    """like _folded, but a key that is a plain local (`get_mut(&var_key)`) is traced to its `let` bindings in `src`:
+    every binding of that name must fold"""
+    def f(expr):
+        if _folded(expr):
+            return True
+        name = expr.lstrip("&*")
+        if re.fullmatch(r"\w+", name):
+            binds = re.findall(r"let\s+(?:mut\s+)?%s\s*(?::[^=;]*)?=\s*([^;]*);" % re.escape(name), src)
+            return bool(binds) and all(_folded(b) for b in binds)
+        return False
+    return f
+
+
 def _fmt(src, what):
     """`format!("pre{}post", arg)` -> (pre, post, arg)"""
     m = re.findall(r'format!\(\s*"([^"]*)"\s*,\s*([^)]*?)\s*\)', src, re.S)
@@ -210,7 +224,10 @@ def lint_consts(repo):
         fa = _arm_body(unu, "visit", "AstForBlock")
         fn_ = re.search(r"self\.(\w+)\(", fa)
         fb = extract.fn_body(unu, fn_.group(1)) if fn_ else fa
-        if not re.search(r"cur_local_vars\s*\.\s*get_mut\(\s*&?node\.counter_token", fb) or "use_count + 1" not in fb:
+        direct = re.search(r"cur_local_vars\s*\.\s*get_mut\(\s*&?node\.counter_token", fb)
+        via = re.search(r"cur_local_vars\s*\.\s*get_mut\(\s*&?(\w+)\s*\)", fb)
+        via_ok = bool(via and re.search(r"let\s+%s\s*=\s*node\.counter_token" % re.escape(via.group(1)), fb))   # key bound to a local first
+        if not (direct or via_ok) or not re.search(r"use_count\s*(?:\+=\s*1|=\s*[\w\.]*use_count\s*\+\s*1)", fb):
             raise ValueError("unused: handling of AstForBlock not recognised")
     ta = _arm_body(unu, "visit", "AstTerminal")
     if "self.notify_terminal_node(node)" not in ta:
@@ -329,7 +346,7 @@ def fold_sites(repo):
         look = _call_args(unu, "self.cur_local_vars", "get_mut") + _call_args(unu, "self.cur_local_vars", "get")
         if len(ins) != 1 or len(look) < 2:
             raise ValueError("unused-var map: %d inserts, %d lookups" % (len(ins), len(look)))
-        return all(map(_folded, ins)), all(map(_folded, look)), \
+        return all(map(_folded_in(unu), ins)), all(map(_folded_in(unu), look)), \
             "unused_var_analyzer.rs `cur_local_vars`: insert=%s lookups=%s" % (ins, look)
     site("unusedVarMap", unused_map)
 
@@ -346,7 +363,7 @@ def fold_sites(repo):
         look = _call_args(unp, "self.byte_array_seen", "get_mut") + _call_args(unp, "self.byte_array_seen", "get")
         if len(ins) != 1 or len(look) != 1:
             raise ValueError("unpurged map: %d inserts, %d lookups" % (len(ins), len(look)))
-        return all(map(_folded, ins)), all(map(_folded, look)), \
+        return all(map(_folded_in(unp), ins)), all(map(_folded_in(unp), look)), \
             "unpurged_varbytearray_checker.rs `byte_array_seen`: insert=%s lookup=%s" % (ins, look)
     site("unpurgedMap", unpurged_map)
 
@@ -363,7 +380,7 @@ def fold_sites(repo):
         look = _call_args(inh, "self.methods_to_check", "contains")
         if not keys or len(look) != 1:
             raise ValueError("inherited: method set not recognised")
-        return all(k == k.upper() for k in keys), all(map(_folded, look)), \
+        return all(k == k.upper() for k in keys), all(map(_folded_in(inh), look)), \
             "inherited_checker.rs `methods_to_check`: keys=%s lookup=%s" % (keys, look)
     site("inheritedMethodSet", inh_set)
 
